@@ -6,6 +6,9 @@
 (* (structure is left intact - the strongest adversary, so coverage alone must force the reject).    *)
 (* Lemmas: every untampered shape is accepted and parses back; every tamper of an authenticated      *)
 (* region is rejected; padding is don't-care; every design mutant is rejected; key discipline.       *)
+(* The XMCD kind (HabLayout!XmcdKinds + "raw") is a dimension of the shapes; a third kind of deviation  *)
+(* are the PARSE mutants (pm): the image is right, but SPSDK's own parser loses / shortens / mislabels  *)
+(* the DCD / XMCD segment - the ROM accepts such an image, the round-trip clause must not (ParseMutantRejected). *)
 EXTENDS HabRom, TLC, IOUtils
 
 Full == IF "MC_FULL" \in DOMAIN IOEnv THEN IOEnv.MC_FULL = "1" ELSE FALSE
@@ -18,23 +21,33 @@ Start == <<8192, 7168>>                              \* 0x20001C00
 
 Shapes ==
   { sh \in [lay : Lays, appLen : AppLens, flags : {"plain", "auth", "enc"}, cfgKind : {"none", "dcd", "xmcd"},
+            xk : XmcdKindNames \cup {"raw", "none"},
             fast : BOOLEAN, extra : {0, 1}, imgTgt : (IF Full THEN 2..5 ELSE {2, 5})] :
+      /\ (sh.xk = "none") = (sh.cfgKind # "xmcd")
+      /\ (~Full /\ sh.xk \in XmcdKindNames => sh.lay.ivtOff = 4096 /\ ~sh.fast /\ sh.appLen = 4096)    \* quick: the real kinds on one layout
       /\ (sh.flags = "plain" => ~sh.fast /\ sh.extra = 0 /\ sh.imgTgt = 2)
       /\ (~Full /\ sh.flags # "plain" => sh.extra = 1)
       /\ (sh.fast => sh.imgTgt = 2)
       /\ (sh.cfgKind = "xmcd" => sh.lay.ils - sh.lay.ivtOff >= 3072) }
 
-CfgLen(sh) == CASE sh.cfgKind = "none" -> 0 [] sh.cfgKind = "dcd" -> 44 [] OTHER -> 16
+CfgLen(sh) == CASE sh.cfgKind = "none" -> 0 [] sh.cfgKind = "dcd" -> 44 [] sh.xk = "raw" -> 16 [] OTHER -> XmcdKinds[sh.xk].size
+XIface(sh) == IF sh.xk \in XmcdKindNames THEN XmcdKinds[sh.xk].iface ELSE 0
+XType(sh) == IF sh.xk \in XmcdKindNames THEN XmcdKinds[sh.xk].btype ELSE 0
 Inp(sh) == [start |-> Start, ivtOff |-> sh.lay.ivtOff, ils |-> sh.lay.ils, appLen |-> sh.appLen, flags |-> sh.flags,
             cfgKind |-> sh.cfgKind, cfgLen |-> CfgLen(sh), entry |-> AddTo(Start, sh.lay.ils + 257), ver |-> 66,
             nSrk |-> 4, srcIdx |-> 1, fast |-> sh.fast, imgTgt |-> sh.imgTgt, vfyIdx |-> IF sh.fast THEN 0 ELSE sh.imgTgt,
-            macLen |-> 16, dekLen |-> 32, waive |-> << >>]
+            macLen |-> 16, dekLen |-> 32, waive |-> << >>, xmcdKind |-> sh.xk]
 
 Tampers == {"none", "pad", "ivt", "bd", "cfg", "app", "csfcmds", "srktable", "csfkcert", "csfsig", "imgkcert", "datasig", "mac"}
 Mutants == {"none", "noCfgBlock", "noIvtOffInBlocks", "dataBeforeCsfAuth", "noCsfk", "imgkBySlot1", "shortBootLen",
             "csfAtAppEnd", "appBlockShort", "macNotOverApp", "selfWithoutIvtOff"}
-Applicable(sh, t, m) ==
+ParseMutants == {"none", "dropCfg", "cfgShort", "cfgMoved", "xmcdOtherType", "xmcdOtherIface"}
+Applicable(sh, t, m, pm) ==
   /\ (t # "none" => m = "none")
+  /\ (pm # "none" => t = "none" /\ m = "none" /\ sh.cfgKind # "none")
+  /\ (pm \in {"xmcdOtherType", "xmcdOtherIface"} => sh.cfgKind = "xmcd")
+  \* the real XMCD kinds meet only the deviations that concern the XMCD (the others are explored with the raw block)
+  /\ (sh.xk \in XmcdKindNames => t \in {"none", "cfg"} /\ m \in {"none", "noCfgBlock"} /\ sh.imgTgt = 2)
   /\ (sh.flags = "plain" => t \in {"none", "app"} /\ m \in {"none", "shortBootLen", "selfWithoutIvtOff"})
   /\ (t = "cfg" \/ m = "noCfgBlock" => sh.cfgKind # "none")
   /\ (t \in {"csfkcert", "imgkcert"} \/ m \in {"noCsfk", "imgkBySlot1"} => ~sh.fast)
@@ -45,7 +58,7 @@ Applicable(sh, t, m) ==
 (* ---- the abstract image: event list of shape sh under tamper t / mutant m *)
 A(sh, f) == AddTo(Start, sh.lay.ivtOff + f)
 Blk(sh, f, n, m) == [a |-> IF m = "noIvtOffInBlocks" THEN AddTo(Start, f) ELSE A(sh, f), n |-> n]
-Events(sh, t, m) ==
+Events(sh, t, m, pm) ==
   LET p == Inp(sh)
       L == Layout(p)
       plain == sh.flags = "plain"   enc == sh.flags = "enc"
@@ -75,7 +88,8 @@ Events(sh, t, m) ==
       bd == [ev |-> "BootData", at |-> 32, start |-> Start, plugin |-> 0,
              len |-> IF m = "shortBootLen" THEN (IF plain THEN p.ivtOff + L.app + p.appLen - 4 ELSE p.ivtOff + csfAt) ELSE L.bdLen]
       cfg == IF sh.cfgKind = "dcd" THEN << [ev |-> "Dcd", at |-> 64, tag |-> 210, len |-> CfgLen(sh), match |-> t # "cfg"] >>
-             ELSE IF sh.cfgKind = "xmcd" THEN << [ev |-> "Xmcd", at |-> 64, tag |-> 12, size |-> CfgLen(sh), match |-> t # "cfg"] >>
+             ELSE IF sh.cfgKind = "xmcd" THEN << [ev |-> "Xmcd", at |-> 64, tag |-> 12, ver |-> 0, size |-> CfgLen(sh), iface |-> XIface(sh),
+                                                   inst |-> 0, btype |-> XType(sh), match |-> t # "cfg"] >>
              ELSE << >>
       app == [ev |-> "App", at |-> IF enc \/ t = "app" THEN -1 ELSE L.app, len |-> p.appLen, padOk |-> TRUE]
       hdr == [ev |-> "CsfHeader", at |-> csfAt, tag |-> 212, len |-> csfLen, ver |-> 66]
@@ -110,21 +124,29 @@ Events(sh, t, m) ==
       endev == [ev |-> "CsfEnd", at |-> csfAt + csfLen]
       pb == [ev |-> "ParseBack", ok |-> TRUE, self |-> ivt.self, bd |-> ivt.bd, dcd |-> ivt.dcd, csf |-> ivt.csf, entry |-> ivt.entry,
              bdStart |-> bd.start, bdLen |-> bd.len, plugin |-> 0, flags |-> FlagWord(sh.flags),
-             hasDcd |-> sh.cfgKind = "dcd", hasXmcd |-> sh.cfgKind = "xmcd", hasCsf |-> ~plain, appAt |-> L.app, cStart |-> Start, cIvtOff |-> p.ivtOff,
+             hasDcd |-> sh.cfgKind = "dcd" /\ pm # "dropCfg", hasXmcd |-> sh.cfgKind = "xmcd" /\ pm # "dropCfg", hasCsf |-> ~plain,
+             \* parse mutants change the NUMBERS only; the byte comparisons stay TRUE (strongest adversary: the structure clauses must reject)
+             cfgAt |-> IF sh.cfgKind = "none" \/ pm = "dropCfg" THEN -1 ELSE IF pm = "cfgMoved" THEN 68 ELSE 64,
+             cfgLen |-> IF sh.cfgKind = "none" \/ pm = "dropCfg" THEN 0 ELSE IF pm = "cfgShort" THEN CfgLen(sh) - 4 ELSE CfgLen(sh),
+             xSize |-> IF sh.cfgKind # "xmcd" \/ pm = "dropCfg" THEN -1 ELSE IF pm = "cfgShort" THEN CfgLen(sh) - 4 ELSE CfgLen(sh),
+             xIface |-> IF sh.cfgKind # "xmcd" \/ pm = "dropCfg" THEN -1 ELSE IF pm = "xmcdOtherIface" THEN 1 - XIface(sh) ELSE XIface(sh),
+             xInst |-> IF sh.cfgKind # "xmcd" \/ pm = "dropCfg" THEN -1 ELSE 0,
+             xType |-> IF sh.cfgKind # "xmcd" \/ pm = "dropCfg" THEN -1 ELSE IF pm = "xmcdOtherType" THEN 1 - XType(sh) ELSE XType(sh),
+             appAt |-> L.app, cStart |-> Start, cIvtOff |-> p.ivtOff,
              nCmds |-> IF plain THEN 0 ELSE Len(cmds0), ivtEq |-> TRUE, bdEq |-> TRUE, cfgEq |-> TRUE, appEq |-> TRUE, csfEq |-> TRUE, reexpEq |-> TRUE]
   IN << ivt, bd >> \o cfg \o << app >> \o (IF plain THEN << >> ELSE << hdr >> \o cmds \o << endev >>)
      \o << [ev |-> "Accept"], pb >>
 
 \* all abstract images of the scope, built once (constant-level definition)
-Cases == {c \in Shapes \X Tampers \X Mutants : Applicable(c[1], c[2], c[3])}
+Cases == {c \in Shapes \X Tampers \X Mutants \X ParseMutants : Applicable(c[1], c[2], c[3], c[4])}
 
-VARIABLES sh, t, m, i, s, evs
-vars == <<sh, t, m, i, s, evs>>
+VARIABLES sh, t, m, pm, i, s, evs
+vars == <<sh, t, m, pm, i, s, evs>>
 E == evs[i]
 inp == Inp(sh)
-Init == \E c \in Cases : sh = c[1] /\ t = c[2] /\ m = c[3] /\ i = 1 /\ s = S0 /\ evs = Events(c[1], c[2], c[3])
+Init == \E c \in Cases : sh = c[1] /\ t = c[2] /\ m = c[3] /\ pm = c[4] /\ i = 1 /\ s = S0 /\ evs = Events(c[1], c[2], c[3], c[4])
 Has(name) == i <= Len(evs) /\ E.ev = name
-Adv == i' = i + 1 /\ UNCHANGED <<sh, t, m, evs>>
+Adv == i' = i + 1 /\ UNCHANGED <<sh, t, m, pm, evs>>
 DoParseIvt == Has("ParseIvt") /\ IvtOK(inp, s, E) /\ s' = IvtNx(inp, s, E) /\ Adv
 DoBootData == Has("BootData") /\ BdOK(inp, s, E) /\ s' = BdNx(inp, s, E) /\ Adv
 DoDcd == Has("Dcd") /\ DcdOK(inp, s, E) /\ s' = CfgNx(inp, s, E) /\ Adv
@@ -165,7 +187,13 @@ CanStep ==
 
 (* ---- lemmas *)
 Finished == i > Len(evs)
-UntamperedAccepted == (t = "none" /\ m = "none") => IF Finished THEN s.st = "Done" ELSE CanStep
+UntamperedAccepted == (t = "none" /\ m = "none" /\ pm = "none") => IF Finished THEN s.st = "Done" ELSE CanStep
+\* the ROM accepts the image of a parse mutant (the image is right), the round-trip clause does not
+ParseMutantRejected == (pm # "none") => /\ s.st # "Done"
+                                        /\ IF i < Len(evs) THEN CanStep ELSE i = Len(evs) /\ s.st = "Accepted" /\ ~CanStep
+\* every XMCD kind is accepted under every flag that can carry it, and parses back (non-vacuity of the kind dimension)
+ASSUME XmcdKindsReached == \A k \in XmcdKindNames \cup {"raw"}, f \in {"plain", "auth", "enc"} :
+                      \E c \in Cases : c[1].xk = k /\ c[1].flags = f /\ c[2] = "none" /\ c[3] = "none" /\ c[4] = "none"
 PadDontCare == (t = "pad") => IF Finished THEN s.st = "Done" ELSE CanStep
 TamperRejected == (t \notin {"none", "pad"}) => s.st \notin {"Accepted", "Done"}
 MutantRejected == (m # "none") => s.st \notin {"Accepted", "Done"}
